@@ -159,6 +159,13 @@ impl IsoDateTime {
     ) -> TemporalResult<Self> {
         // 1. Assert: IsValidISODate(year, month, day) is true.
         // 2. Assert: ISODateTimeWithinLimits(year, month, day, hour, minute, second, millisecond, microsecond, nanosecond) is true.
+        // NOTE: a time duration longer than the whole representable range always leaves it; it is
+        // rejected here because the day carry of AddTime is only 32 bits wide.
+        if norm.0.abs() > i128::from(NS_PER_DAY) * 2 * i128::from(MAX_EPOCH_DAYS) {
+            return Err(
+                TemporalError::range().with_message("IsoDateTime not within a valid range.")
+            );
+        }
         // 3. Let timeResult be AddTime(hour, minute, second, millisecond, microsecond, nanosecond, norm).
         let t_result = self.time.add(norm);
 
